@@ -268,6 +268,23 @@ class XsdWildcard(XsdComponent):
         else:
             return all(ns in other.namespace for ns in self.namespace)
 
+    def _align_other_namespace(self, other: Union['XsdAnyElement', 'XsdAnyAttribute']) \
+            -> Union['XsdAnyElement', 'XsdAnyAttribute']:
+        """
+        Prepares the combination with a wildcard declared for another target namespace:
+        '##other' is relative to the target namespace of each wildcard, so it's replaced
+        with the equivalent set of not allowed namespaces (on self and on a copy of other).
+        """
+        if self.target_namespace != other.target_namespace:
+            if '##other' in other.namespace and not other.not_namespace:
+                other = copy(other)
+                other.namespace = set()
+                other.not_namespace = {'', other.target_namespace}
+            if '##other' in self.namespace and not self.not_namespace:
+                self.namespace = set()
+                self.not_namespace = {'', self.target_namespace}
+        return other
+
     def union(self, other: Union['XsdAnyElement', 'XsdAnyAttribute']) -> None:
         """Update an XSD wildcard with the union of itself and another XSD wildcard."""
         # A name is disallowed by the union only if it's disallowed by both
@@ -281,6 +298,7 @@ class XsdWildcard(XsdComponent):
             if not x.startswith('##') and not self.is_namespace_allowed(get_namespace(x))
         )
         self.not_qname = not_qname
+        other = self._align_other_namespace(other)
 
         if self.not_namespace:
             if other.not_namespace:
@@ -356,6 +374,8 @@ class XsdWildcard(XsdComponent):
             self.not_qname.update(other.not_qname)
         else:
             self.not_qname = copy(other.not_qname)
+
+        other = self._align_other_namespace(other)
 
         if self.not_namespace:
             if other.not_namespace:
